@@ -264,8 +264,12 @@ Props ==
                                 [] x.kind = "and" -> truth[x.a] \cap truth[x.b]
                                 [] x.kind = "or" -> truth[x.a] \cup truth[x.b]
                                 [] x.kind = "andnot" -> truth[x.a] \ truth[x.b]
+                                [] x.kind = "andall" -> {i \in ids : \A t \in DOMAIN truth : i \in truth[t]}
+                                [] x.kind = "orall" -> {i \in ids : \E t \in DOMAIN truth : i \in truth[t]}
+                                [] x.kind = "norall" -> {i \in ids : \A t \in DOMAIN truth : i \notin truth[t]}
                    bad == {i \in DOMAIN r.obs.search2 : r.obs.search2[i].err # "" \/ S(r.obs.search2[i].res) # want(r.obs.search2[i])}
-                   names(i) == {r.obs.search2[i].a} \cup (IF r.obs.search2[i].b = "" THEN {} ELSE {r.obs.search2[i].b})
+                   names(i) == IF r.obs.search2[i].kind \in {"andall", "orall", "norall"} THEN DOMAIN truth
+                               ELSE {r.obs.search2[i].a} \cup (IF r.obs.search2[i].b = "" THEN {} ELSE {r.obs.search2[i].b})
                    \* searches that inline a tag with a sub-query (directly or through references): known finding C06.SearchRight:S
                    subs(i) == \E t \in names(i) : HasSub(t)
                    other == {i \in bad : ~subs(i)}
